@@ -33,13 +33,31 @@ Record reviewed_field := { r_struct : string; r_field : string; r_sites : list w
 Definition find_reviewed (tbl : list reviewed_field) (sname fname : string) : option reviewed_field :=
   find (fun r => String.eqb (r_struct r) sname && String.eqb (r_field r) fname) tbl.
 
-(* every written field of the struct is in the table with EXACTLY the observed sites *)
+(* ONE-DIRECTIONAL comparison of the observed write sites of a field with the reviewed ones. Less state cannot leak more:
+   - a field that is no longer written at all (or no longer exists) needs no review (handled by the callers: [] => true);
+   - an observed site must be a reviewed site (same method and kind) with AT MOST the reviewed count: a NEW site or MORE
+     writes need review;
+   - sites that only ADD to the state (append / elem-write / Insert) may vanish or decrease;
+   - every other reviewed site (assign, reset-make, reset-truncate, Clear, incdec, via-pointer, address-taken: these are the
+     resets and overwrite-before-read points the justifications rely on) must still be there with EXACTLY its count as long
+     as the field is written at all. *)
+Definition ws_method (w : write_site) := let 'W m _ _ := w in m.
+Definition ws_kind (w : write_site) := let 'W _ k _ := w in k.
+Definition ws_count (w : write_site) := let 'W _ _ c := w in c.
+Definition same_site (a b : write_site) : bool := String.eqb (ws_method a) (ws_method b) && String.eqb (ws_kind a) (ws_kind b).
+Definition additive (w : write_site) : bool :=
+  mem (ws_kind w) ["append"; "elem-write"; "ptr-method:Insert"].
+Definition sites_within (ws rs : list write_site) : bool :=
+  forallb (fun w => existsb (fun r => same_site w r && (ws_count w <=? ws_count r)%N) rs) ws
+  && forallb (fun r => additive r || existsb (fun w => same_site w r && N.eqb (ws_count w) (ws_count r)) ws) rs.
+
+(* every written field of the struct is in the table and its observed sites are within the reviewed ones *)
 Definition struct_reviewed (tbl : list reviewed_field) (s : struct_inv) : bool :=
   forallb (fun f =>
     match live_writes f with
     | [] => true
     | ws => match find_reviewed tbl (s_name s) (f_name f) with
-            | Some r => list_eqb write_site_eqb ws (r_sites r)
+            | Some r => sites_within ws (r_sites r)
             | None => false
             end
     end) (s_fields s).
@@ -51,7 +69,7 @@ Definition unreviewed (tbl : list reviewed_field) (inv : list struct_inv) : list
       match live_writes f with
       | [] => []
       | ws => match find_reviewed tbl (s_name s) (f_name f) with
-              | Some r => if list_eqb write_site_eqb ws (r_sites r) then [] else [(s_name s, f_name f)]
+              | Some r => if sites_within ws (r_sites r) then [] else [(s_name s, f_name f)]
               | None => [(s_name s, f_name f)]
               end
       end) (s_fields s)) inv.
@@ -85,9 +103,17 @@ Record reviewed_fn := { rf_file : string; rf_fn : string; rf_sites : list (strin
 
 Definition site_eqb (a b : string * N) : bool := String.eqb (fst a) (fst b) && N.eqb (snd a) (snd b).
 
+(* ONE-DIRECTIONAL: every observed site of the function is a reviewed site with at most the reviewed count (a NEW write /
+   Replace / copy site or MORE of them need review; fewer writes cannot damage more), and every reviewed astcopy site is still
+   there with at least its count as long as the function has any site left (a vanished COPY in a function that still writes
+   is exactly the seeded defect). *)
+Definition fn_sites_within (obs rev : list (string * N)) : bool :=
+  forallb (fun o => existsb (fun r => String.eqb (fst o) (fst r) && (snd o <=? snd r)%N) rev) obs
+  && forallb (fun r => negb (has_prefix "astcopy:" (fst r))
+                       || existsb (fun o => String.eqb (fst o) (fst r) && (snd r <=? snd o)%N) obs) rev.
 Definition fn_reviewed (tbl : list reviewed_fn) (m : mut_fn) : bool :=
   match find (fun r => String.eqb (rf_file r) (mf_file m) && String.eqb (rf_fn r) (mf_fn m)) tbl with
-  | Some r => list_eqb site_eqb (mf_sites m) (rf_sites r)
+  | Some r => fn_sites_within (mf_sites m) (rf_sites r)
   | None => false
   end.
 
